@@ -974,6 +974,7 @@ def _prod(*dims):
     return out
 
 
+QVALS_QUICK = (0, 4, 5, 8, 12)
 QVALS = (0, 4, 5, 8, 9, 12)     # quick tier, longest field bodies: int, raising __str__, raising __repr__,
 #                                  raising callable, callable returning a hostile object, attribute holder
 
@@ -994,7 +995,8 @@ def _field_shards(tier):
     out = [("len(body) <= %d" % (m - 2), "%d <= va <= %d" % (a, a + 6)) for a in (0, 7)]
     out += [("len(body) == %d" % (m - 1), "va == %d" % a) for a in range(NVAL)]
     # the longest bodies with 6 of the 14 values (both tiers; the thorough tier is one character longer)
-    out += [("len(body) == %d" % m, "va == %d" % a, third) for a in QVALS for third in _THIRDS]
+    out += [("len(body) == %d" % m, "va == %d" % a, third)
+            for a in (QVALS_QUICK if tier == "quick" else QVALS) for third in _THIRDS]
     return [o + ("vb == 12",) for o in out]
 
 
@@ -1009,7 +1011,7 @@ def _sys_shards(tier):
 def _flat_shards(tier):
     m = BOUNDS[tier]["f"]
     out = [("len(body) <= %d" % (m - 1), "how == 0"), ("how >= 1", "va <= 6"), ("how >= 1", "va >= 7")]
-    out += [("len(body) == %d" % m, "how == 0", "va == %d" % a) for a in QVALS]
+    out += [("len(body) == %d" % m, "how == 0", "va == %d" % a) for a in (QVALS_QUICK if tier == "quick" else QVALS)]
     return out
 
 
@@ -1043,7 +1045,7 @@ VECTORS = {
 
 BOUNDS_TEXT = ("format strings over the 14 characters { } ! : . [ ] ( ) a b 0 r s: every whole format string of length "
                "<= n (fmt_event), every single replacement field '<{' + body + '}>' with len(body) <= m "
-               "(field_event; the longest bodies with 6 of the 14 values) and '{' + body + '}.' "
+               "(field_event; the longest bodies with 5 (quick) / 6 (thorough) of the 14 values) and '{' + body + '}.' "
                "with len(body) <= f after the real flattenEvent (flat_event); event keys a and b take any of 14 "
                "menu values (int, str, None, bytes, objects whose __str__ / __repr__ / __format__ raise or return "
                "non-text, raising and hostile-returning callables, dict, list, attribute holder with a raising "
